@@ -433,6 +433,10 @@ func (it *Interp) flatPred(fn string, t *SymType) bool {
 			return set(false)
 		}
 	}
+	if f.Kind == KUnknown && f.NotKinds[KBasic] && f.NotKinds[KStruct] && f.NotKinds[KArray] {
+		// every kind that can be flat has been excluded on this path
+		return set(false)
+	}
 	return set(it.choose(2, key, "yes", "no") == 0)
 }
 
@@ -651,4 +655,32 @@ func (it *Interp) EntryViolatesGRequires(entryKey string, p *Path) bool {
 		}
 	}
 	return false
+}
+
+// FlatPredConformance checks a contract "abstract: pred flat" against the body
+// it abstracts: the body is explored with its recursive calls abstracted (the
+// induction hypothesis) and, path by path, its answer is compared with the
+// flat predicate of the argument type as the path finally knows it (true for
+// basic types other than untyped nil, structs of flat fields, arrays of flat
+// elements; false for every other kind). Where the body has not looked at
+// something the predicate depends on, both cases are explored.
+func (it *Interp) FlatPredConformance(key string, limit int) (paths []*Path, err error) {
+	it.postBody = func(it *Interp, p *Path) {
+		if len(p.Args) != 1 || len(p.Ret) != 1 {
+			p.Conformance = "not a one-argument predicate"
+			return
+		}
+		t, ok := p.Args[0].(*SymType)
+		got, ok2 := p.Ret[0].(bool)
+		if !ok || !ok2 {
+			p.Conformance = fmt.Sprintf("result %s is not a decided boolean", Describe(p.Ret[0]))
+			return
+		}
+		want := it.flatPred(key, t)
+		if got != want {
+			p.Conformance = fmt.Sprintf("the body answers %v, the flat predicate is %v", got, want)
+		}
+	}
+	defer func() { it.postBody = nil }()
+	return it.Explore(key, func(it *Interp) (Value, []Value) { return nil, []Value{it.newType("tt")} }, limit)
 }
